@@ -220,6 +220,17 @@ func genSeqOps(g *Rand, fl seqFlavour, nslots, n int, thorough bool) []SOp {
 				op.Kw = wamp.Dict{"k": uniq, "nested": wamp.Dict{"l": wamp.List{1, "x"}}}
 			}
 		case "reg":
+			if fl == seqC13 && g.Chance(3, 4) {
+				// few procedures, shared policies: callees with different
+				// feature sets end up on one registration
+				op.URI = g.Pick("p.a", "p.b")
+				op.Opts = wamp.Dict{"invoke": g.Pick("roundrobin", "first", "last", "random")}
+				if g.Chance(1, 2) {
+					op.Opts["forward_timeout"] = true
+				}
+				ops = append(ops, op)
+				continue
+			}
 			switch g.Weighted(6, 3, 3, 1, 1) {
 			case 0:
 				op.URI = g.Pick("p.a", "p.a.b", "p.b", "p.a.b.c")
